@@ -467,6 +467,29 @@ pub fn run(ctx: &mut Ctx) -> Result<(), Violation> {
         Ok(())
     })?;
 
+    // Poly1305 with operands SOLVED so that the accumulator sits on carry / reduction boundaries after a block
+    // (C07's adversarial generator): every block-aligned 2-way split and the uniform 16-byte chunking. A carry that
+    // is pending exactly at an update-call boundary only exists for such values.
+    {
+        let adv = super::c07::poly_adversarial(seed, ctx.tier.pick(6_000, 200_000));
+        ctx.par_each(&adv, |_, c, ev| {
+            let super::c07::Case::Onetime { key, msg, .. } = c else { return Ok(()) };
+            for object in [false, true] {
+                let iface = Iface::Ota { key: key.clone(), object };
+                let sod = oneshot_sodium(&iface, msg).map_err(|m| Violation::new("C08", "chunking", m, json!({})))?;
+                let mut cutsets: Vec<Vec<usize>> = (1..=msg.len() / 16).map(|b| vec![b * 16]).collect();
+                cutsets.push((1..=msg.len() / 16).map(|b| b * 16).collect());
+                for cuts in cutsets {
+                    ev.eval(1);
+                    ev.class("onetimeauth: solved accumulator values x block-aligned splits");
+                    ev.nontrivial(fnv64(&[b"adv", key, msg, &cuts.iter().flat_map(|x| x.to_le_bytes()).collect::<Vec<u8>>(), &[object as u8]]));
+                    check_with_ref(&iface, msg, &cuts, &sod).map_err(|m| Violation::new("C08", "chunking", m, serde_json::to_value(Case { iface: iface.clone(), msg: msg.clone(), cuts: cuts.clone() }).unwrap()))?;
+                }
+            }
+            Ok(())
+        })?;
+    }
+
     // object-API generic hash with Vec keys of EVERY length 16..=64 under each KEY_LENGTH parameter: the one-shot
     // `hash` and the incremental `new/update/finalize` must agree with each other (same inputs, same container)
     {
